@@ -1032,11 +1032,83 @@ for _c, _impl in ((C_DFTT, "torch"), (C_DFTN, "numpy")):
 for _c, _impl, _ups in ((C_UPS, "torch", (4, 8)), (C_ALIGN, "torch_fourier", (2, 8)), (C_CCT, "torch", (1, 2, 4)), (C_CCS, "numpy", (1,))):
     _c.concretize, _c.rt, _c.rt_family = conc_shift(_impl), rt_shift, _fam_contract((_impl,), _ups)
 
+def rt_callers(inp):
+    """call sites: tomography.utils.cross_correlation_align_stack (numpy, scipy shift by the returned value) and
+    direct_ptycho_utils._compute_reference_shifts / _compute_pairwise_shifts (torch): the returned shifts are the applied
+    translations with the same sign convention, the aligned stack matches the reference, inputs untouched."""
+    import os
+
+    os.environ.setdefault("TQDM_DISABLE", "1")
+    import numpy as np
+    import torch
+
+    _single_thread()
+    H, W, up = inp["H"], inp["W"], inp["up"]
+    rng = np.random.default_rng(inp["seed"])
+    yy, xx = np.meshgrid(np.arange(H), np.arange(W), indexing="ij")
+    ref = np.zeros((H, W))
+    for _ in range(3):  # compact blobs well inside the frame: periodic roll == non-periodic shift
+        cy, cx, sg = rng.uniform(0.4 * H, 0.6 * H), rng.uniform(0.4 * W, 0.6 * W), rng.uniform(0.9, 1.4)
+        ref += rng.uniform(0.5, 1.0) * np.exp(-((yy - cy) ** 2 + (xx - cx) ** 2) / (2 * sg * sg))
+    shifts = [(int(a), int(b)) for a, b in zip(rng.integers(-2, 3, size=3), rng.integers(-2, 3, size=3))]
+    problems = []
+    if inp["caller"] == "tomography":
+        from quantem.tomography.utils import cross_correlation_align_stack
+
+        stack = np.stack([np.roll(ref, (-a, -b), (0, 1)) for a, b in shifts])   # translating image k by shifts[k] gives ref
+        s0, r0 = stack.copy(), ref.copy()
+        import contextlib
+        import io
+
+        with contextlib.redirect_stderr(io.StringIO()):   # tqdm progress bar
+            new, pred = cross_correlation_align_stack(ref, stack)
+        for k, (sh, im) in enumerate(zip(pred, new)):
+            if np.abs(np.asarray(sh, float) - np.array(shifts[k], float)).max() > EXACT_TOL:
+                problems.append(f"image {k}: predicted {np.round(sh, 4).tolist()} for applied {shifts[k]}")
+            if np.abs(im - ref).max() > 2e-2:   # blob tails cut at the frame by the non-periodic scipy shift
+                problems.append(f"image {k}: aligned image differs from the reference by {np.abs(im - ref).max():.3g}")
+        if not (np.array_equal(stack, s0) and np.array_equal(ref, r0)):
+            problems.append("inputs were modified")
+    else:
+        from quantem.diffractive_imaging import direct_ptycho_utils as dp
+
+        stack = torch.tensor(np.stack([np.roll(ref, (-a, -b), (0, 1)) for a, b in shifts]))
+        reft = torch.tensor(ref)
+        s0, r0 = stack.clone(), reft.clone()
+        got = dp._compute_reference_shifts(stack, reft, upsample_factor=up).numpy()
+        for k in range(len(shifts)):
+            if np.abs(got[k] - np.array(shifts[k], float)).max() > EXACT_TOL:
+                problems.append(f"reference shift {k}: {np.round(got[k], 4).tolist()} for applied {shifts[k]}")
+        pairs = torch.tensor([[0, 1], [1, 0], [0, 2], [2, 1]])
+        rel = {(i, j): s.numpy() for i, j, s in dp._compute_pairwise_shifts(stack, pairs, upsample_factor=up)}
+        for (i, j), sh in rel.items():
+            want = np.array(shifts[j], float) - np.array(shifts[i], float)   # translating image j by it reproduces image i
+            if np.abs(sh - want).max() > EXACT_TOL:
+                problems.append(f"pair ({i},{j}): {np.round(sh, 4).tolist()} but images differ by {want.tolist()}")
+        if np.abs(rel[(0, 1)] + rel[(1, 0)]).max() > EXACT_TOL:
+            problems.append("pair (0,1) and (1,0) are not negatives of each other")
+        if not (torch.equal(stack, s0) and torch.equal(reft, r0)):
+            problems.append("inputs were modified")
+    return dict(violated=bool(problems), observed="; ".join(problems[:3]) or "ok",
+                expected="callers obtain the applied integer translations exactly, with the estimator's sign convention; inputs untouched")
+
+
+def fam_callers(tier="quick", seed=0):
+    for caller in ("tomography", "direct_ptycho"):
+        for (H, W) in [(16, 16), (17, 20), (24, 19)]:
+            for up in ((1,) if caller == "tomography" else (1, 2, 4, 8)):
+                for sd in range(2 if tier == "quick" else 5):
+                    yield dict(caller=caller, H=H, W=W, up=up, seed=seed + sd + H)
+
+
 BOUNDED = [
     bounded_shift("shift recovery contract on real estimators (numpy + torch)", fam_shift,
                   "shapes 8..33 odd/even/non-square (11 quick, 17 thorough), upsample {1,2,4,8,16,64}, identical / 4 integer / 4 sub-pixel shifts "
                   "incl. beyond half the size, real and Fourier inputs, fft_output, max_shift, float32/float64; inputs snapshotted and compared, two calls"),
     Bounded.from_rt("matrix-multiply DFT window vs direct trigonometric sum", rt_dft, fam_dft, "6 shapes, 4 factors, 3 centres, numpy + torch", klass=klass_dft),
+    Bounded.from_rt("call sites: tomography stack alignment and direct-ptychography reference / pairwise shifts", rt_callers, fam_callers,
+                    "3 shapes, compact blob images, 3 integer translations in [-2,2]^2, upsample {1,2,4,8} (torch), 2 seeds (5 thorough)",
+                    klass=lambda inp, res: inp["caller"]),
 ]
 
 TRUSTED = [
